@@ -37,12 +37,20 @@ where
 
     storage::delete_saved_env_state(target).await?;
 
+    // The state of the inputs is captured before the build starts: an input modified while the
+    // build is running was not (reliably) seen by it, and must not be recorded as built.
+    let input_state_before_build = if target_input.is_empty() {
+        Ok(None)
+    } else {
+        ResourcesState::current(target_input).await.map(Some)
+    };
+
     let build_report = future.await?;
 
     match build_report {
         BuildTerminationReport::Cancelled => Ok(IncrementalRunResult::Cancelled),
         BuildTerminationReport::Completed => {
-            match TargetEnvState::current(target_input, target_output).await {
+            match TargetEnvState::after_build(input_state_before_build, target_output).await {
                 Ok(Some(env_state)) => {
                     if let Err(e) = storage::save_env_state(target, env_state).await {
                         log::warn!(
@@ -86,20 +94,22 @@ pub struct TargetEnvState {
 }
 
 impl TargetEnvState {
-    pub async fn current(
-        target_input: &Resources,
+    /// State to record after a successful build: the inputs as they were when the build
+    /// started, the outputs as they are now.
+    async fn after_build(
+        input_state_before_build: Result<Option<ResourcesState>>,
         target_output: Option<&Resources>,
     ) -> Result<Option<Self>> {
-        if target_input.is_empty() {
-            Ok(None)
-        } else {
-            let input = ResourcesState::current(target_input).await?;
-            let output = match target_output {
-                Some(target_output) => Some(ResourcesState::current(target_output).await?),
-                None => None,
-            };
+        match input_state_before_build? {
+            None => Ok(None),
+            Some(input) => {
+                let output = match target_output {
+                    Some(target_output) => Some(ResourcesState::current(target_output).await?),
+                    None => None,
+                };
 
-            Ok(Some(TargetEnvState { input, output }))
+                Ok(Some(TargetEnvState { input, output }))
+            }
         }
     }
 
